@@ -357,14 +357,17 @@ func file(name string) *Node               { return &Node{Name: name} }
 // ---------- scenarios ----------
 
 type Scenario struct {
-	Op       string `json:"op"`   // walk ls lsrec listtree subdirs copy zip remove clean
-	Flag     bool   `json:"flag"` // lsrec: includeDirectories; copy: destination exists
-	Backend  string `json:"backend"`
-	RootName string `json:"root_name"`
-	DestName string `json:"dest_name"`
-	ZipName  string `json:"zip_name,omitempty"` // base name of the archive (default out.zip), written beside the root
-	Tree     *Node  `json:"tree"`
-	Pats     []Pat  `json:"pats"`
+	Op       string   `json:"op"`   // walk ls lsrec listtree subdirs copy zip remove clean
+	Flag     bool     `json:"flag"` // lsrec: includeDirectories; copy: destination exists
+	Backend  string   `json:"backend"`
+	RootName string   `json:"root_name"`
+	DestName string   `json:"dest_name"`
+	ZipName  string   `json:"zip_name,omitempty"` // base name of the archive (default out.zip), written beside the root
+	Call     string   `json:"call,omitempty"`     // "ExcludeAll": a call without a tree (Names, Pats, Via)
+	Names    []string `json:"names,omitempty"`
+	Via      string   `json:"via,omitempty"` // "" = the method of the file system; otherwise the package-level function called (OS back end for the global file system)
+	Tree     *Node    `json:"tree"`
+	Pats     []Pat    `json:"pats"`
 }
 
 var ops = []struct {
@@ -563,7 +566,11 @@ func runScenario(r *h.Run, e *env, sc Scenario, emit bool) {
 		}
 	case "lsrec":
 		var files []string
-		files, opErr = w.fs.LsRecursiveWithExclusionPatterns(ctx, root, sc.Flag, pats...)
+		if sc.Via == "LsRecursiveWithExclusionPatterns" { // package-level convenience function: the global (OS) file system
+			files, opErr = filesystem.LsRecursiveWithExclusionPatterns(ctx, root, sc.Flag, pats...)
+		} else {
+			files, opErr = w.fs.LsRecursiveWithExclusionPatterns(ctx, root, sc.Flag, pats...)
+		}
 		for _, p := range files {
 			addPath(p, false)
 		}
@@ -580,7 +587,11 @@ func runScenario(r *h.Run, e *env, sc Scenario, emit bool) {
 			add([]string{n}, false)
 		}
 	case "copy":
-		opErr = w.fs.CopyWithContextAndExclusionPatterns(ctx, root, dest, pats...)
+		if sc.Via == "CopyBetweenFSWithExclusionPatterns" { // package-level function between two file systems (here the same one)
+			opErr = filesystem.CopyBetweenFSWithExclusionPatterns(ctx, w.fs, root, w.fs, dest, pats...)
+		} else {
+			opErr = w.fs.CopyWithContextAndExclusionPatterns(ctx, root, dest, pats...)
+		}
 	case "zip":
 		opErr = w.fs.ZipWithContextAndLimitsAndExclusionPatterns(ctx, root, zipPath, filesystem.NoLimits(), pats...)
 	case "remove":
@@ -612,7 +623,7 @@ func runScenario(r *h.Run, e *env, sc Scenario, emit bool) {
 			r.Fail("invalid-pattern-reported:"+sc.Op, fmt.Sprintf("%s with an uncompilable pattern reported entries", sc.Op), sc)
 		}
 		if emit {
-			r.Case(fmt.Sprintf("(COp %s %s %s %s %s %s %s [])", sc.coqOp(), coqPats(sc.Pats), h.Str(root), h.Str(dest), h.Str(sc.RootName), sc.Tree.coq(),
+			r.Case(wrapCase(sc.Via, "(COp %s %s %s %s %s %s %s [])", sc.coqOp(), coqPats(sc.Pats), h.Str(root), h.Str(dest), h.Str(sc.RootName), sc.Tree.coq(),
 				h.Bool(isInvalid(opErr) && sameSnap(before, after))), sc)
 		}
 		return
@@ -819,7 +830,7 @@ func runScenario(r *h.Run, e *env, sc Scenario, emit bool) {
 		"fully_matched": nBlocked, "clear": nClear, "observed": outKeys})
 
 	if emit {
-		r.Case(fmt.Sprintf("(COp %s %s %s %s %s %s false %s)", sc.coqOp(), coqPats(sc.Pats), h.Str(root), h.Str(dest), h.Str(sc.RootName), sc.Tree.coq(), coqEntries(outKeys)), sc)
+		r.Case(wrapCase(sc.Via, "(COp %s %s %s %s %s %s false %s)", sc.coqOp(), coqPats(sc.Pats), h.Str(root), h.Str(dest), h.Str(sc.RootName), sc.Tree.coq(), coqEntries(outKeys)), sc)
 	}
 }
 
@@ -851,7 +862,173 @@ func allOpsZ(r *h.Run, e *env, backend, rootName, destName, zipName string, tree
 		if !tree.Dir && o.op != "remove" && o.op != "walk" && o.op != "lsrec" && !(o.op == "copy" && !o.flag) {
 			continue
 		}
-		runScenario(r, e, Scenario{Op: o.op, Flag: o.flag, Backend: backend, RootName: rootName, DestName: destName, ZipName: zipName, Tree: tree, Pats: pats}, emit)
+		sc := Scenario{Op: o.op, Flag: o.flag, Backend: backend, RootName: rootName, DestName: destName, ZipName: zipName, Tree: tree, Pats: pats}
+		runScenario(r, e, sc, emit)
+		// the same call through the package-level functions, next to the method
+		if o.op == "lsrec" && backend == "os" {
+			sc.Via = "LsRecursiveWithExclusionPatterns"
+			runScenario(r, e, sc, emit)
+		}
+		if o.op == "copy" && (backend == "os" || e.count%3 == 0) {
+			sc.Via = "CopyBetweenFSWithExclusionPatterns"
+			runScenario(r, e, sc, emit)
+		}
+	}
+}
+
+func wrapCase(via, format string, a ...any) string {
+	c := fmt.Sprintf(format, a...)
+	if via == "" {
+		return c
+	}
+	return fmt.Sprintf("(CWrap %q%%string %s)", via, c)
+}
+
+// ---------- ExcludeAll: method and package-level function ----------
+
+func excludeAllCases(r *h.Run, n int) {
+	mem := filesystem.NewInMemoryFileSystem()
+	std := filesystem.NewStandardFileSystem()
+	pool := namePool(r, "t", "o", "out.zip")
+	for i := 0; i < n; i++ {
+		var ps []Pat
+		switch i % 8 {
+		case 0: // no pattern
+		case 1:
+			ps = []Pat{{Kind: "bad", Text: badTexts[r.Rng.Intn(len(badTexts))]}}
+		case 2:
+			ps = append(genPats(r, pool), Pat{Kind: "bad", Text: badTexts[r.Rng.Intn(len(badTexts))]})
+		case 3:
+			ps = []Pat{good(word("zzz"))} // matches nothing
+		default:
+			ps = genPats(r, pool)
+		}
+		var names []string
+		for j, k := 0, r.Rng.Intn(7); j < k; j++ {
+			names = append(names, genNameP(r, pool))
+		}
+		for _, via := range []string{"", "mem", "ExcludeAll"} {
+			runExcludeAll(r, std, mem, via, names, ps, true)
+		}
+	}
+}
+
+// runExcludeAll: one ExcludeAll call — via "" the method of the OS file system, "mem" of the in-memory one,
+// "ExcludeAll" the package-level function
+func runExcludeAll(r *h.Run, std, mem filesystem.FS, via string, names []string, ps []Pat, emit bool) {
+	hasBad := false
+	for _, p := range ps {
+		hasBad = hasBad || p.Kind == "bad"
+	}
+	{
+		{
+			var out []string
+			var err error
+			switch via {
+			case "":
+				out, err = std.ExcludeAll(names, texts(ps)...)
+			case "mem":
+				out, err = mem.ExcludeAll(names, texts(ps)...)
+			default:
+				out, err = filesystem.ExcludeAll(names, texts(ps)...)
+			}
+			r.Eval()
+			r.Count("excludeall-cases")
+			replay := Scenario{Call: "ExcludeAll", Via: via, Names: names, Pats: ps}
+			if hasBad {
+				if !isInvalid(err) || len(out) > 0 {
+					r.Fail("invalid-pattern-not-rejected:excludeall", fmt.Sprintf("ExcludeAll (via %q) with an uncompilable pattern %q returned %v, %v", via, texts(ps), out, err), replay)
+				}
+			} else if err != nil {
+				r.Fail("unexpected-error:excludeall", fmt.Sprintf("ExcludeAll (via %q) failed with valid patterns %q: %v", via, texts(ps), err), replay)
+				return
+			} else {
+				kept := map[string]int{}
+				for _, x := range out {
+					kept[x]++
+				}
+				for _, nm := range names {
+					full, part := false, false
+					for _, p := range ps {
+						full = full || regexp.MustCompile("^(?:"+p.Text+")$").MatchString(nm)
+						part = part || regexp.MustCompile(p.Text).MatchString(nm)
+					}
+					if full && kept[nm] > 0 {
+						r.Fail("excludeall:excluded-entry-processed", fmt.Sprintf("ExcludeAll (via %q) kept %q although it is matched in full by one of %q", via, nm, texts(ps)), replay)
+					}
+					if !part && kept[nm] == 0 {
+						r.Fail("excludeall:clear-entry-not-processed", fmt.Sprintf("ExcludeAll (via %q) dropped %q although it contains no match of %q", via, nm, texts(ps)), replay)
+					}
+				}
+			}
+			ts := make([]string, len(names))
+			for j, x := range names {
+				ts[j] = h.Str(x)
+			}
+			os_ := make([]string, len(out))
+			for j, x := range out {
+				os_[j] = h.Str(x)
+			}
+			wv := via
+			if wv == "mem" {
+				wv = ""
+			}
+			if !emit {
+				return
+			}
+			r.Case(wrapCase(wv, "(CExcludeAll %s %s %s %s)", coqPats(ps), h.List(ts), h.Bool(hasBad && isInvalid(err)), h.List(os_)), replay)
+		}
+	}
+}
+
+// ---------- the forwarding functions enumerated by the translator ----------
+
+// how each function with an exclusion-pattern parameter is exercised by this harness
+var driven = map[string]string{
+	"IsPathExcludedFromPatterns":                        "exclCases",
+	"NewExclusionRegexList":                             "exclCases",
+	"ExcludeAll":                                        "excludeAllCases (package-level function, global file system)",
+	"VFS.ExcludeAll":                                    "excludeAllCases",
+	"LsRecursiveWithExclusionPatterns":                  "lsrec via the package-level function on the OS back end",
+	"CopyBetweenFSWithExclusionPatterns":                "copy via the package-level function",
+	"VFS.WalkWithContextAndExclusionPatterns":           "walk",
+	"VFS.CleanDirWithContextAndExclusionPatterns":       "clean",
+	"VFS.removeFileWithContext":                         "clean / remove (called by CleanDir)",
+	"VFS.RemoveWithContextAndExclusionPatterns":         "remove",
+	"VFS.removeWithExclusionPatterns":                   "remove (called by Remove)",
+	"VFS.LsWithExclusionPatterns":                       "ls",
+	"VFS.LsRecursiveWithExclusionPatterns":              "lsrec",
+	"VFS.LsRecursiveWithExclusionPatternsAndLimits":     "lsrec (called by LsRecursiveWithExclusionPatterns)",
+	"VFS.CopyWithContextAndExclusionPatterns":           "copy",
+	"VFS.SubDirectoriesWithContextAndExclusionPatterns": "subdirs",
+	"VFS.ListDirTreeWithContextAndExclusionPatterns":    "listtree",
+	"VFS.ZipWithContextAndLimitsAndExclusionPatterns":   "zip",
+}
+
+// checkWrappersDriven reads the list the translator wrote into coq/C08/Gen.v and fails for every function with an
+// exclusion-pattern parameter that this harness does not exercise.
+func checkWrappersDriven(r *h.Run) {
+	root := os.Getenv("VERIF_ROOT")
+	if root == "" {
+		root = "/verif"
+	}
+	bs, err := os.ReadFile(filepath.Join(root, "coq", "C08", "Gen.v"))
+	if err != nil {
+		r.Fail("wrapper-list-unreadable", "cannot read the generated list of forwarding functions: "+err.Error(), nil)
+		return
+	}
+	ms := regexp.MustCompile(`mkW "([^"]+)" (true|false) (true|false) (true|false)`).FindAllStringSubmatch(string(bs), -1)
+	if len(ms) == 0 {
+		r.Note("no forwarding function listed in Gen.v (translator failed?)")
+	}
+	for _, m := range ms {
+		if m[3] != "true" {
+			continue
+		}
+		r.Count("pattern-functions-enumerated")
+		if _, ok := driven[m[1]]; !ok {
+			r.Fail("wrapper-not-driven", "the function "+m[1]+" has an exclusion-pattern parameter but this harness does not exercise it", map[string]any{"function": m[1]})
+		}
 	}
 }
 
@@ -908,6 +1085,13 @@ func exclCases(r *h.Run, n int) {
 		r.Eval()
 		r.Count("excl-cases")
 		obs := filesystem.IsPathExcludedFromPatterns(s, '/', texts(ps)...)
+		bad := false
+		for _, p := range ps {
+			bad = bad || p.Kind == "bad"
+		}
+		if _, err := filesystem.NewExclusionRegexList('/', texts(ps)...); bad != isInvalid(err) {
+			r.Fail("invalid-pattern-not-rejected:regex-list", fmt.Sprintf("NewExclusionRegexList(%q) returned %v", texts(ps), err), nil)
+		}
 		r.Case(fmt.Sprintf("(CExcl %s %s %s)", coqPats(ps), h.Str(s), h.Bool(obs)), map[string]any{"patterns": texts(ps), "s": s})
 	}
 }
@@ -955,10 +1139,22 @@ func main() {
 
 	var sc Scenario
 	if _, ok := r.ReplayObject(&sc); ok {
+		if sc.Call == "ExcludeAll" {
+			runExcludeAll(r, filesystem.NewStandardFileSystem(), filesystem.NewInMemoryFileSystem(), sc.Via, sc.Names, sc.Pats, false)
+			r.Finish()
+			return
+		}
+		if sc.Op == "" {
+			checkWrappersDriven(r)
+			r.Finish()
+			return
+		}
 		runScenario(r, e, sc, false)
 		r.Finish()
 		return
 	}
+
+	checkWrappersDriven(r)
 
 	// ---- deterministic corpus (runs first on every invocation) ----
 	// D11: a pattern naming an entry below the first level must protect it in remove / clean
@@ -1020,6 +1216,11 @@ func main() {
 		if i < 2 {
 			allOps(r, e, "os", "t", "o", rich, ps, true)
 		}
+	}
+	// OS back end = the global file system: every call is also made through the package-level functions, with an
+	// effective, a non-matching, no and an invalid pattern
+	for _, ps := range [][]Pat{{good(word("ab"))}, {good(word("zzz"))}, nil, {{Kind: "bad", Text: "("}}, {good(word("d")), {Kind: "bad", Text: "a("}}, {good(chr('a')), good(word("x"))}} {
+		allOps(r, e, "os", "t", "o", deep, ps, true)
 	}
 	// the archive / destination / root carry other names
 	allOpsZ(r, e, "mem", ".t", ".o", "ab.zip", dir("", file("ab.zip"), dir("xab.zip.d", file("ab")), dir(".o", file(".t")), file("b.zi")), nil, true)
@@ -1094,5 +1295,6 @@ func main() {
 	}
 	matcherCases(r, r.N(200, 2000))
 	exclCases(r, r.N(120, 1000))
+	excludeAllCases(r, r.N(48, 400))
 	r.Finish()
 }
